@@ -50,8 +50,12 @@ let print_line (l : line) =
   List.iter (fun f -> print_string ("|" ^ field_str f)) l.l_fields;
   print_newline ()
 
+(* `codriver spec` runs the extracted reference semantics of Spec.v (spec_step) instead of the model (step) *)
+let spec_mode = Array.length Sys.argv > 1 && Sys.argv.(1) = "spec"
+
 let () =
   let st = ref (init true) in
+  let sst = ref (spec_init true) in
   let idx = ref 0 in
   let nslots = ref 24 in
   iter_lines (fun line ->
@@ -65,6 +69,7 @@ let () =
         match w.(0) with
         | "reset" ->
           st := init (w.(1) <> "0");
+          sst := spec_init (w.(1) <> "0");
           nslots := int_of_string w.(2);
           idx := 0;
           print_endline "@ reset";
@@ -96,13 +101,24 @@ let () =
       match op with
       | None -> ()
       | Some o ->
-        let s = !st in
-        if not s.halted then begin
-          print_endline ("> " ^ string_of_int !idx ^ " " ^ who_str s.current ^ " d"
-                         ^ string_of_int (int_of_nat (depth_of s.current s)));
-          let s1, ls = step o s in
-          List.iter print_line ls;
-          st := s1
+        if spec_mode then begin
+          let t = !sst in
+          if not t.ss_halted then begin
+            print_endline ("> " ^ string_of_int !idx ^ " " ^ who_str (s_running t) ^ " d"
+                           ^ string_of_int (int_of_nat (s_depth_of (s_running t) t)));
+            let t1, ls = spec_step o t in
+            List.iter print_line ls;
+            sst := t1
+          end
+        end else begin
+          let s = !st in
+          if not s.halted then begin
+            print_endline ("> " ^ string_of_int !idx ^ " " ^ who_str s.current ^ " d"
+                           ^ string_of_int (int_of_nat (depth_of s.current s)));
+            let s1, ls = step o s in
+            List.iter print_line ls;
+            st := s1
+          end
         end;
         incr idx
     end)
